@@ -424,7 +424,9 @@ func runXML(sum *vh.Summary, cw *vh.CaseWriter, text string, gen []*xn, verbose 
 	obs := map[string]interface{}{}
 	fail := func(what string, detail interface{}) {
 		failed = true
-		sum.Fail(what, cs, map[string]interface{}{"detail": detail, "observed": obs})
+		if sum != nil {
+			sum.Fail(what, cs, map[string]interface{}{"detail": detail, "observed": obs, "shrunk_from": shrunkFrom})
+		}
 	}
 	dom, domErr := parseDOM(text)
 	if gen != nil {
@@ -524,7 +526,9 @@ func runXML(sum *vh.Summary, cw *vh.CaseWriter, text string, gen []*xn, verbose 
 	}
 	if domErr == nil && tokErr == nil {
 		term := fmt.Sprintf("CXml (mkXCase %s %s %s %s %s %s)", coqXDoc(dom), vh.CoqList(toks), tree, elem, ifs, vh.CoqBool(guard))
-		cw.Add(term, cs)
+		if cw != nil {
+			cw.Add(term, cs)
+		}
 	}
 	if verbose {
 		fmt.Printf("xml text: %q\n guard(ns_wf && uri_single_prefix)=%v read_err=%v\n", text, guard, readErr)
@@ -798,6 +802,13 @@ func genElem(r *vh.Rng, st *xstats, env []binding, depth, maxDepth int, twoPrefi
 	return e
 }
 
+func pickS(r *vh.Rng, xs ...string) string {
+	if r == nil {
+		return xs[0]
+	}
+	return r.PickStr(xs...)
+}
+
 func (n *xn) serialise(r *vh.Rng, sb *strings.Builder) {
 	if n.K != xElem {
 		sb.WriteString(n.raw)
@@ -809,18 +820,18 @@ func (n *xn) serialise(r *vh.Rng, sb *strings.Builder) {
 	}
 	sb.WriteString("<" + name)
 	for _, a := range n.Attrs {
-		sb.WriteString(r.PickStr(" ", " ", "\n ", "  "))
+		sb.WriteString(pickS(r, " ", " ", "\n ", "  "))
 		sb.WriteString(a.raw)
 	}
-	if n.selfClose {
-		sb.WriteString(r.PickStr("/>", " />"))
+	if n.selfClose && len(n.Kids) == 0 {
+		sb.WriteString(pickS(r, "/>", " />"))
 		return
 	}
-	sb.WriteString(r.PickStr(">", ">", " >"))
+	sb.WriteString(pickS(r, ">", ">", " >"))
 	for _, k := range n.Kids {
 		k.serialise(r, sb)
 	}
-	sb.WriteString("</" + name + r.PickStr(">", ">", " >"))
+	sb.WriteString("</" + name + pickS(r, ">", ">", " >"))
 }
 
 func genXMLCase(r *vh.Rng, sum *vh.Summary, cw *vh.CaseWriter) {
@@ -865,8 +876,103 @@ func genXMLCase(r *vh.Rng, sum *vh.Summary, cw *vh.CaseWriter) {
 	if !inside {
 		sum.Hist("xml:outside-uri_single_prefix(correspondence only)")
 	}
+	nf := len(sum.Failures)
 	failed := runXML(sum, cw, text, items, false)
+	if failed && len(sum.Failures) == nf+1 {
+		// the oracle fails: shrink the document and report the minimal failing text instead
+		sum.Failures = sum.Failures[:nf]
+		min := shrinkXML(items)
+		shrunkFrom = text
+		runXML(sum, cw, min, nil, false)
+		shrunkFrom = ""
+		return
+	}
 	if !failed && nontrivial && inside && st.decls > 0 && st.depth >= 1 {
 		sum.Sample(map[string]interface{}{"kind": "xml", "text": text})
 	}
+}
+
+// ---- shrinking ------------------------------------------------------------------------------------
+
+func cloneXN(n *xn) *xn {
+	c := *n
+	c.Attrs = append([]xa{}, n.Attrs...)
+	c.Kids = nil
+	for _, k := range n.Kids {
+		c.Kids = append(c.Kids, cloneXN(k))
+	}
+	return &c
+}
+
+// xmlCandidates: smaller variants of an element (a child element promoted, a child or an
+// attribute dropped, a text simplified, recursively one level at a time).
+func xmlCandidates(e *xn) []*xn {
+	var out []*xn
+	if e.K == xText && e.raw != "t" {
+		return []*xn{{K: xText, Text: "t", raw: "t"}}
+	}
+	if e.K != xElem {
+		return nil
+	}
+	for _, k := range e.Kids {
+		if k.K == xElem {
+			out = append(out, k)
+		}
+	}
+	for i := range e.Kids {
+		c := cloneXN(e)
+		c.Kids = append(c.Kids[:i:i], c.Kids[i+1:]...)
+		// dropping an item may leave two plain texts adjacent: drop those variants
+		ok := true
+		for j := 1; j < len(c.Kids); j++ {
+			if c.Kids[j].K == xText && c.Kids[j-1].K == xText &&
+				!strings.HasPrefix(c.Kids[j].raw, "<![CDATA[") && !strings.HasPrefix(c.Kids[j-1].raw, "<![CDATA[") {
+				ok = false
+			}
+		}
+		if ok {
+			out = append(out, c)
+		}
+	}
+	for i := range e.Attrs {
+		c := cloneXN(e)
+		c.Attrs = append(c.Attrs[:i:i], c.Attrs[i+1:]...)
+		out = append(out, c)
+	}
+	for i, k := range e.Kids {
+		for _, kc := range xmlCandidates(k) {
+			c := cloneXN(e)
+			c.Kids[i] = kc
+			out = append(out, c)
+		}
+	}
+	return out
+}
+
+func shrinkXML(items []*xn) string {
+	var root *xn
+	for _, it := range items {
+		if it.K == xElem {
+			root = it
+			break
+		}
+	}
+	text := func(e *xn) string {
+		var sb strings.Builder
+		e.serialise(nil, &sb)
+		return sb.String()
+	}
+	for round := 0; round < 300; round++ {
+		progress := false
+		for _, c := range xmlCandidates(root) {
+			if runXML(nil, nil, text(c), nil, false) {
+				root, progress = c, true
+				break
+			}
+		}
+		if !progress {
+			break
+		}
+	}
+	return text(root)
 }
